@@ -340,6 +340,7 @@ class Interp:
                     return False
             # an identifier pattern that names a unit variant / const (None) is a path in syn, so this binds
             env[pat["name"]] = v
+            env.setdefault("__locals__", set()).add(pat["name"])
             return True
         if k == "wild" or k == "rest":
             return True
@@ -464,7 +465,10 @@ class Interp:
         return self.lit(e)
 
     def e_block(self, e, env):
-        return self.block(e, dict(env))
+        env2 = self.scope(env)
+        r = self.block(e, env2)
+        self._writeback(env, env2)
+        return r
 
     def e_path(self, e, env):
         segs = e["segs"]
@@ -527,7 +531,7 @@ class Interp:
 
     def e_if(self, e, env):
         c = e["cond"]
-        env2 = dict(env)
+        env2 = self.scope(env)
         if c["k"] == "letcond":
             v = self.ev(c["expr"], env)
             taken = self.match(c["pat"], v, env2)
@@ -538,21 +542,27 @@ class Interp:
             self._writeback(env, env2)
             return r
         if e["else"] is not None:
-            env3 = dict(env)
+            env3 = self.scope(env)
             r = self.ev(e["else"], env3) if e["else"]["k"] != "block" else self.block(e["else"], env3)
             self._writeback(env, env3)
             return r
         return UNIT
 
+    def scope(self, env):
+        e2 = dict(env)
+        e2["__locals__"] = set()
+        return e2
+
     def _writeback(self, outer, inner):
+        loc = inner.get("__locals__", ())
         for k in outer:
-            if k in inner and inner[k] is not outer[k]:
+            if k != "__locals__" and k in inner and k not in loc and inner[k] is not outer[k]:
                 outer[k] = inner[k]
 
     def e_match(self, e, env):
         v = self.ev(e["expr"], env)
         for arm in e["arms"]:
-            env2 = dict(env)
+            env2 = self.scope(env)
             if self.match(arm["pat"], v, env2):
                 if arm["guard"] is not None and not self.truth(self.ev(arm["guard"], env2)):
                     continue
@@ -626,9 +636,11 @@ class Interp:
                 return
         if k == "unary" and target["op"] == "*":
             return self.assign(target["e"], v, env)
+        if k == "other" and target.get("src", "").strip() == "_":
+            return
         if k == "tuple":
             for t, x in zip(target["elems"], v):
-                if t["k"] == "path" and t["segs"] == ["_"]:
+                if (t["k"] == "path" and t["segs"] == ["_"]) or (t["k"] == "other" and t.get("src", "").strip() == "_"):
                     continue
                 self.assign(t, x, env)
             return
@@ -681,7 +693,7 @@ class Interp:
     def e_for(self, e, env):
         it = self.std.into_iter(self, self.ev(e["iter"], env))
         for x in it:
-            env2 = dict(env)
+            env2 = self.scope(env)
             self.bind(e["pat"], x, env2)
             try:
                 self.block(e["body"], env2)
@@ -700,7 +712,7 @@ class Interp:
             if n > 64:
                 raise Unsupported("while loop bound")
             c = e["cond"]
-            env2 = dict(env)
+            env2 = self.scope(env)
             if c["k"] == "letcond":
                 if not self.match(c["pat"], self.ev(c["expr"], env), env2):
                     break
@@ -718,7 +730,7 @@ class Interp:
 
     def e_loop(self, e, env):
         for _ in range(64):
-            env2 = dict(env)
+            env2 = self.scope(env)
             try:
                 self.block(e["body"], env2)
             except Break:
